@@ -379,6 +379,108 @@ func c06readerScenario(op string) *lib.Scenario {
 	return sc
 }
 
+// c06sameIDScenario: two uploaders (e.g. two workers of a migration job) upload different content with the SAME preserved
+// bundle ID, optionally while a third actor keeps downloading that bundle. Whatever the interleaving, at most one of
+// them may report success, the visible bundle must hold the content of the one that did, a reader must never see it
+// change, and no metadata object of the bundle may be rewritten once it exists.
+func c06sameIDScenario() *lib.Scenario {
+	const fixedID = "1INoq1vdD3KoM9Uj0uMU27IXUlm" // a valid ksuid
+	sc := &lib.Scenario{Name: "same-id upload||upload||reader"}
+	sc.Setup = func(x *lib.Exec) { c06setup(x, "upload") }
+	metaGates := map[string]func(string, string) bool{"meta": allCalls, "vmeta": allCalls}
+	contents := []map[string][]byte{c06files3, {"x": []byte("OTHER"), "q/r": []byte("another file"), "z": []byte("third")}}
+	up := func(k int) lib.ClientFn {
+		return func(x *lib.Exec, id int) error {
+			s := x.Data["s"].(*c06state)
+			_, err := uploadFiles(s.w.Gated(x, id, metaGates), "r", contents[k], c06L, 1, core.BundleID(fixedID))
+			return err
+		}
+	}
+	read := func(x *lib.Exec, st context2.Stores) (map[string][]byte, bool) {
+		dest := lib.NewMemStore("dest")
+		dest.NoCRC = true
+		if _, err := downloadBundle(st, "r", fixedID, dest, 1); err != nil {
+			return nil, false
+		}
+		got := dest.Snapshot()
+		for k := range got {
+			if strings.HasPrefix(k, ".datamon/") { // the bundle's own metadata, materialised next to the files
+				delete(got, k)
+			}
+		}
+		return got, true
+	}
+	same := func(a, b map[string][]byte) bool {
+		if len(a) != len(b) {
+			return false
+		}
+		for k, v := range a {
+			if w, ok := b[k]; !ok || !bytes.Equal(v, w) {
+				return false
+			}
+		}
+		return true
+	}
+	which := func(got map[string][]byte) string {
+		for k, c := range contents {
+			if same(got, c) {
+				return fmt.Sprintf("uploader%d", k)
+			}
+		}
+		return "neither"
+	}
+	sc.Phases = [][]lib.ClientFn{{up(0), up(1),
+		func(x *lib.Exec, id int) error { // reader: two complete downloads of the bundle, as soon as it exists
+			s := x.Data["s"].(*c06state)
+			st := s.w.Gated(x, id, map[string]func(string, string) bool{"meta": allCalls})
+			var seen []string
+			for i := 0; i < 2; i++ {
+				if got, ok := read(x, st); ok {
+					seen = append(seen, which(got))
+				}
+			}
+			x.Data["reader"] = seen
+			return nil
+		}}}
+	sc.Final = func(x *lib.Exec) {
+		s := x.Data["s"].(*c06state)
+		if x.Hung {
+			x.Violate("C06|hang|same-id", "never returned")
+			return
+		}
+		ok0, ok1 := x.ClientErr[0] == nil, x.ClientErr[1] == nil
+		out := fmt.Sprintf("success=%v,%v", ok0, ok1)
+		if ok0 && ok1 {
+			x.Violate("C06|same-id|two-uploads-succeeded", "both uploads with the same preserved bundle ID reported success")
+		}
+		got, vis := read(x, s.w.Stores())
+		if vis {
+			w := which(got)
+			out += ";visible=" + w
+			if w == "neither" {
+				x.Violate("C06|same-id|visible-bundle-mixes-uploads", fmt.Sprintf("bundle %s holds %d files that are the content of neither upload", fixedID, len(got)))
+			} else if (w == "uploader0" && !ok0) || (w == "uploader1" && !ok1) {
+				x.Violate("C06|same-id|visible-bundle-from-failed-upload", fmt.Sprintf("bundle %s holds the content of %s, whose upload reported an error (successes: %v %v)", fixedID, w, ok0, ok1))
+			}
+		} else {
+			out += ";visible=none"
+			if ok0 || ok1 {
+				x.Violate("C06|same-id|successful-upload-not-downloadable", "an upload reported success but the bundle does not download")
+			}
+		}
+		seen, _ := x.Data["reader"].([]string)
+		for i, w := range seen {
+			if w == "neither" || (i > 0 && w != seen[0]) || (vis && w != which(got)) {
+				x.Violate("C06|same-id|reader-saw-bundle-change", fmt.Sprintf("a concurrent reader downloaded the bundle as %v, final content is %v", seen, map[bool]string{true: which(got), false: "none"}[vis]))
+				break
+			}
+		}
+		c06immutability(x, s, "same-id")
+		x.SetOutcome(out + fmt.Sprintf(";reader=%v", seen))
+	}
+	return sc
+}
+
 func TestC06(t *testing.T) {
 	rep := lib.NewReport("C06", "model_checking")
 	defer rep.Finish(t)
@@ -386,7 +488,7 @@ func TestC06(t *testing.T) {
 	if lib.Thorough() {
 		pb = 3
 	}
-	rep.Rule = fmt.Sprintf("history: 2 repos, 2 committed bundles (2 index files each), a label (+ a diamond with 2 done splits); operation under test in {upload, empty upload, diamond commit, label move, new label}: (1) a crash before/after EVERY store write (blob, metadata, vmetadata) of the operation, then the observer battery (ListBundles with page sizes 1..4, GetLatestBundle, Exists, full download of every visible bundle, labels), then a retry and the battery again; (2) the battery as a concurrent reader against the in-flight operation, all interleavings with <=%d preemptions at metadata-call granularity; distinct = distinct (scenario, crash site, outcome)", pb)
+	rep.Rule = fmt.Sprintf("history: 2 repos, 2 committed bundles (2 index files each), a label (+ a diamond with 2 done splits); operation under test in {upload, empty upload, diamond commit, label move, new label}: (1) a crash before/after EVERY store write (blob, metadata, vmetadata) of the operation, then the observer battery (ListBundles with page sizes 1..4, GetLatestBundle, Exists, full download of every visible bundle, labels), then a retry and the battery again; (2) the battery as a concurrent reader against the in-flight operation, all interleavings with <=%d preemptions at metadata-call granularity; (3) two uploaders of different content with the same preserved bundle ID and a reader downloading that bundle twice, all interleavings with one preemption fewer: at most one success, the visible bundle is the successful one's, the reader never sees it change, no metadata object rewritten; distinct = distinct (scenario, crash site, outcome)", pb)
 	ops := []string{"upload", "upload-empty", "commit", "label-move", "label-new"}
 	var scs []*lib.Scenario
 	var bounds [][2]int
@@ -402,6 +504,8 @@ func TestC06(t *testing.T) {
 		}
 		bounds = append(bounds, [2]int{b, 0})
 	}
+	scs = append(scs, c06sameIDScenario())
+	bounds = append(bounds, [2]int{pb - 1, 0})
 	stall := 6 * time.Minute
 	if lib.Thorough() {
 		stall = 40 * time.Minute
